@@ -305,6 +305,8 @@ class CrcFamily(Family):
         yield ("crc:mid", ["crc.big %d %d" % (n, al) for n in mids for al in range(8)]); stats.bump("crc_64KiB_to_MiB_all_alignments")
         # the function is pure: concurrent calls on different (misaligned) buffers must not disturb one another
         yield ("crc:mt", ["crc.mt 4 8191 %d" % (3000 if tier == "quick" else 40000), "crc.mt 6 60001 %d" % (400 if tier == "quick" else 6000)]); stats.bump("crc_concurrent_calls")
+        # the same buffer checksummed again after a change in the middle (the result depends on the bytes only)
+        yield ("crc:hist", ["crc.hist %d %d" % (n, 12 if tier == "quick" else 200) for n in (64, 1023, 1024, 4096, 8192, 70000)]); stats.bump("crc_same_buffer_changed_in_the_middle")
         # buffers beginning, ending and crossing a page boundary, and buffers ending right before an unmapped page
         yield ("crc:edge", ["crc.edge %d" % (40 if tier == "quick" else 300)]); stats.bump("crc_page_edges")
         # buffers of 4 GiB and more (size_t arithmetic of the loops): thorough tier, and whenever the case budget is enlarged
@@ -331,6 +333,10 @@ class CrcFamily(Family):
                 vals = set(v for v in f.values() if v != "unsupported")
                 if r["real"].startswith("big ") and len(vals) > 1:
                     fails.append(("C17", "buffer of %s bytes at alignment %s: the implementations disagree%s: %s" % (t[1], t[2], " with the standard CRC-32C (ref)" if "ref" in f else "", r["real"]), i))
+                continue
+            if t[0] == "crc.hist":
+                if not r["real"].startswith("hist ok"):
+                    fails.append(("C17", "the same %s-byte buffer checksummed again after one byte in it changed: %s (implementation:round; the value is not the CRC-32C of the buffer's current bytes)" % (t[1], r["real"]), i))
                 continue
             if t[0] == "crc.edge":
                 if not r["real"].startswith("edge ok") and not r["real"].startswith("edge unavailable"):
@@ -380,7 +386,7 @@ class OpenFamily(Family):
             return res1
         good = unhx(fin[0]["real"].split(" ")[1])
         blobs = mutate_file(rng, good, 40 if tier == "quick" else 160)
-        probe = ["open.probe %s verify=%d byfd=%d" % (hx(b), rng.below(2), rng.below(2)) for b in blobs]
+        probe = ["open.probe %s verify=%d byfd=%d madv=%d" % (hx(b), rng.below(2), rng.below(2), rng.below(2)) for b in blobs]
         self.last_probe_lines = probe
         return vlib.run_script(exe, probe)
     def oracle(self, res):
@@ -1293,7 +1299,13 @@ class PooledFamily(Family):
             pool = rng.pick([0, 1, 1, 2, 3, 4, 8])
             if i % 2 == 0:
                 stats.bump("pooled_writer_pool_%d" % pool)
-                yield ("pooled:w:%d:%d" % (seed, i), F.gen_table_case(rng, stats, mode="sorted", small=True, nkeys=rng.pick([5, 12, 30, 60]), pool=pool))
+                lines = F.gen_table_case(rng, stats, mode="sorted", small=True, nkeys=rng.pick([5, 12, 30, 60]), pool=pool)
+                # the same table written WITHOUT a pool by the real code: the two files must be byte-identical
+                wnew = [l for l in lines if l.startswith("w.new 1 ")][0]
+                twin = ["w.new 3 " + " ".join(a for a in wnew.split(" ")[2:] if not a.startswith("pool=")) + " pool=0"]
+                twin += ["w.add 3 " + l.split(" ", 2)[2] for l in lines if l.lstrip("&").startswith("w.add 1 ")]
+                twin += ["w.fin 3"]
+                yield ("pooled:w:%d:%d" % (seed, i), lines + twin)
             else:
                 stats.bump("pooled_sorter_pool_%d" % pool)
                 yield ("pooled:s:%d:%d" % (seed, i), F.gen_sorter_case(rng, stats, pool=pool))
@@ -1302,6 +1314,11 @@ class PooledFamily(Family):
         is_sorter = any(r["req"].startswith("s.new") for r in res)
         for f in (F.oracle_sorter(res) if is_sorter else F.oracle_table(res)):
             out.append(("C13", "with a thread pool: " + f[1], f[2]))
+        f1 = [r for r in res if r["req"] == "w.fin 1"]
+        f3 = [(i, r) for i, r in enumerate(res) if r["req"] == "w.fin 3"]
+        if f1 and f3 and f1[0]["real"].startswith("file ") and f3[0][1]["real"] != f1[0]["real"]:
+            a, b = f1[0]["real"], f3[0][1]["real"]
+            out.append(("C13", "the file written with a thread pool (%d bytes) is not byte-identical to the file the same calls write without a pool (%d bytes)" % ((len(a) - 5) // 2, (len(b) - 5) // 2), f3[0][0]))
         return out
     def tie_props(self, res, idx):
         return {"C13"}
@@ -1522,6 +1539,20 @@ class ResGen:
                 self.emit("res.count")
                 if f1 is None and rng.chance(1, 2):
                     f1 = self.new_id(); self.emit("res.fsdup %d %d" % (f1, f0)); self.objs[f1] = {"k": "fileset", "set": f0}; self.deps[f1] = []
+        if rng.chance(1, 5):
+            # header entries written first, then a sorter dumped into the same writer: its smallest key does not sort after the
+            # header, so the writer refuses it, mtbl_sorter_write reports failure and must still release what it built
+            self.stats.bump("res_sorter_write_refused_by_used_writer")
+            w = self.new_id(); self.emit("res.writer %d 8" % w); self.objs[w] = {"k": "writer", "closed_for_adds": True}; self.deps[w] = []
+            self.emit("res.wadd %d %d %d" % (w, 30 + rng.below(30), rng.pick([0, 10, 100])))
+            i = self.new_id(); mem = rng.pick([64, 150, 100000])
+            self.emit("res.sorter %d mem=%d pool=- pth=0 merge=cat eo=$i.eo" % (i, mem))
+            self.objs[i] = {"k": "sorter", "mem": mem, "pooled": False, "fk": None, "keys": [], "failed": False, "iterating": False, "unsynced": False}
+            self.deps[i] = []
+            for key in sorted(set(rng.below(30) for _ in range(rng.pick([1, 3, 8]))), reverse=rng.chance(1, 2)):
+                self.emit("res.sadd %d %d %d" % (i, key, rng.pick([0, 5, 30]))); self.objs[i]["keys"].append(key)
+            self.emit("res.swrite %d %d" % (i, w)); self.objs[i]["iterating"] = True
+            self.emit("res.count")
         for _ in range(nops):
             self.op()
             if rng.chance(1, 4) and not any(o["k"] == "sorter" and o.get("pooled") and o.get("unsynced") for o in self.objs.values()):
@@ -1614,7 +1645,13 @@ class ResGen:
                     j = self.new_id(); self.emit("res.siter %d %d" % (j, i)); self.objs[j] = {"k": "iter"}; self.deps[j] = [i]
                     o["iterating"] = True; o["unsynced"] = False
                 else:
-                    w = self.new_id(); self.emit("res.writer %d 9" % w); self.objs[w] = {"k": "writer", "closed_for_adds": True}; self.deps[w] = []
+                    open_ws = [j for j, ow in self.objs.items() if ow["k"] == "writer" and not ow.get("closed_for_adds")]
+                    if open_ws and rng.chance(1, 2):
+                        # into a writer that already holds entries (header entries written first): the sorter's first entries may
+                        # be refused by the ordering gate, mtbl_sorter_write then reports failure and must still clean up
+                        w = rng.pick(open_ws); self.objs[w]["closed_for_adds"] = True; self.stats.bump("res_sorter_write_into_used_writer")
+                    else:
+                        w = self.new_id(); self.emit("res.writer %d 9" % w); self.objs[w] = {"k": "writer", "closed_for_adds": True}; self.deps[w] = []
                     self.emit("res.swrite %d %d" % (i, w))
                     if not o["iterating"]:
                         o["iterating"] = True; o["unsynced"] = False
